@@ -847,9 +847,11 @@ Proof.
     unfold pop_expired_mtu_probe in Ep. rewrite F1, F3, F4, F5, Hm in Ep.
     destruct (last_and_init (ss_segs (v_segs s))) as [[init g]|] eqn:El; [|discriminate].
     destruct (sg_delivered g) eqn:Ed; [discriminate|].
-    destruct (timer_expired (v_t_retransmit s) (v_now s) && sg_probe g && (maxr <=? seg_retransmit_count g)) eqn:Ec;
+    destruct (timer_expired (v_t_retransmit s) (v_now s) && negb (is_local_fin_or_later (v_state sx))
+              && sg_probe g && (maxr <=? seg_retransmit_count g)) eqn:Ec;
       [|destruct (sg_probe g); discriminate].
     apply andb_true_iff in Ec. destruct Ec as [Ec Ec3]. apply andb_true_iff in Ec. destruct Ec as [Ec1 Ec2].
+    apply andb_true_iff in Ec1. destruct Ec1 as [Ec1 _].   (* (repair of D6) the flag is `expired && not local-fin` *)
     apply Z.leb_le in Ec3.
     split.
     + destruct HB as (_ & Hn & _). rewrite Hn in Ec1. apply (J_A_of_expired _ _ _ _ HJ Ec1).
